@@ -329,6 +329,12 @@ fn family_c(max_segments: usize) -> Vec<Vec<Stmt>> {
                             pairs,
                         });
                     }
+                    // the same program with segment *switches* (`.segment "x"` without a block) and code in front
+                    // of the first switch, which belongs to the segment that was defined first
+                    let mut switched = prog.clone();
+                    switched.push(ins("lda", Form::Plain, id("l0")));
+                    switched.push(label("before"));
+                    switched.push(imp("nop"));
                     for i in 0..n {
                         let j = (i + r) % n;
                         let sym = match k {
@@ -336,17 +342,25 @@ fn family_c(max_segments: usize) -> Vec<Vec<Stmt>> {
                             1 => format!("segments.{}.end", names[j]),
                             _ => format!("l{}", j),
                         };
+                        let body = vec![
+                            ins("lda", Form::Plain, id(&format!("l{}", j))),
+                            label(&format!("l{}", i)),
+                            word(vec![id(&sym)]),
+                            ins("ldx", Form::PlainY, id(&format!("l{}", (j + 1) % n))),
+                        ];
+                        // (switch to the segments in reverse order, so that the last switch of a pass is not
+                        // the segment the next pass has to start in)
+                        let si = n - 1 - i;
+                        let _ = si;
+                        switched.push(Stmt::Segment { name: string(names[i]), block: None });
+                        switched.extend(body.clone());
                         prog.push(Stmt::Segment {
                             name: string(names[i]),
-                            block: Some(vec![
-                                ins("lda", Form::Plain, id(&format!("l{}", j))),
-                                label(&format!("l{}", i)),
-                                word(vec![id(&sym)]),
-                                ins("ldx", Form::PlainY, id(&format!("l{}", (j + 1) % n))),
-                            ]),
+                            block: Some(body),
                         });
                     }
                     out.push(prog);
+                    out.push(switched);
                 }
             }
         }
@@ -475,7 +489,7 @@ pub fn run(ctx: &Ctx, replay: Option<&Value>) -> i32 {
     ctx.set("family_d_max_passes_needed", json!(max_passes.load(std::sync::atomic::Ordering::Relaxed)));
     ctx.finish(
         "exploration",
-        "A: every statement sequence of length <= k over 28 items (references to two labels in zero-page/absolute/indexed/branch/data positions, label definitions, a dependent constant, pc assignments, .align, text, braces, block start/end references) assembled at $00f8 so that every forward reference is a zero-page/absolute decision; B: 3-level scope shapes x definition mask x use level x 10 path forms x use before/after x instruction/data; C: 1-3 segments x start (3 literals or end of another segment) x pc relocation x cross references; D: promotion ladders of chain length 1..40 (quick) / 1..90 (thorough) from two start addresses, which need chain+5 passes to settle. Every *successful* build is certified: label/block symbols = cursor addresses, every statement's bytes = ISA/evaluator result under the implementation's final symbols, no unexplained bytes, segments.x.start/end = ranges, VICE symbols = label values. non-trivial = distinct assembled program containing at least one symbol reference",
+        "A: every statement sequence of length <= k over 28 items (references to two labels in zero-page/absolute/indexed/branch/data positions, label definitions, a dependent constant, pc assignments, .align, text, braces, block start/end references) assembled at $00f8 so that every forward reference is a zero-page/absolute decision; B: 3-level scope shapes x definition mask x use level x 10 path forms x use before/after x instruction/data; C: 1-3 segments x start (3 literals or end of another segment) x pc relocation x cross references, each with segment blocks and with segment switches (`.segment \"x\"` without a block) behind code that belongs to the first segment; D: promotion ladders of chain length 1..40 (quick) / 1..90 (thorough) from two start addresses, which need chain+5 passes to settle. Every *successful* build is certified: label/block symbols = cursor addresses, every statement's bytes = ISA/evaluator result under the implementation's final symbols, no unexplained bytes, segments.x.start/end = ranges, VICE symbols = label values. non-trivial = distinct assembled program containing at least one symbol reference",
         true,
         &[
             "sequence length bound k (4 quick / 5 thorough), two label names, fixed literal operands",
